@@ -226,7 +226,7 @@ def cases(tier, seed):
         ps = gen.rand_spec(rng, fams, nmax=10, boxes=("mixed", "boxed", "narrow", "lower", "upper", "boxed_degenerate", "none"),
                            starts=("face", "vertex", "outward", "interior"))
         yield {"kind": "run", "problem": ps, "maxcor": int(rng.integers(1, 8)), "maxiter": int(rng.integers(5, 30)),
-               "eps_SY": float(gen.pick(rng, [2.2e-16, 2.2e-16, 1e-3, 1e-2, 0.1])),
+               "eps_SY": float(gen.pick(rng, [2.2e-16, 2.2e-16, 1e-3, 1e-2, 0.1, 0.5, 0.9])), "maxls": int(gen.pick(rng, [20, 20, 2, 3])),
                "restart_after": int(rng.integers(2, 8)) if i % 3 == 1 else 0,
                "restart_scaler": float(np.exp(rng.uniform(np.log(1e-3), np.log(1e2)))) if i % 2 == 1 else None,
                "cb_edits_pairs": bool(i % 4 == 2), "cb_nested": bool(i % 4 == 0),
@@ -325,6 +325,7 @@ def run(spec):
             import lbfgsb.main as M
 
             P = gen.make_problem(spec["problem"])
+            nest = {"on": False}  # True while the optimisation nested in the callback runs (its calls are another problem's)
 
             def on_event(ev):
                 a = ev["args"]
@@ -356,12 +357,23 @@ def run(spec):
                                      f"run {spec['problem']['family']} call #{ic.calls['subspace_minimization']}", dict(source="run"), mats=mats, c=a["c"])
                 if ref is not None and not out.violations:
                     check_descent(out, x, g, lbv, ubv, ev["ret"], "run", dict(source="run"), consistent)
+                    # "a descent direction for the objective": the gradient the routine was handed must be the objective's gradient at x
+                    # (times the scaling factor in force), recomputed here from the user's function
+                    if not spec.get("restart_scaler") and not spec.get("grad_dtype") and not spec.get("cb_edits_pairs") and not nest["on"]:
+                        olde = np.seterr(all="ignore")
+                        gt = np.asarray(P.g(np.array(x, dtype=float, copy=True)), dtype=float)
+                        np.seterr(**olde)
+                        out.count("gradients_handed_to_the_routine_compared_with_the_objective's")
+                        if np.all(np.isfinite(gt)) and not np.array_equal(gt, g) and not out.violations:
+                            out.violate("not_a_descent_direction", f"run {spec['problem']['family']}: the gradient handed to the subspace step at x={np.asarray(x).tolist()} is "
+                                        f"{np.asarray(g).tolist()} but the objective's gradient there is {gt.tolist()}: the direction is built for another point", source="run")
                     if 0 < ref["free"].size < x.size and ref["alpha"] < 1.0:
                         keys.add(digest(x, g, B))
                 if not np.array_equal(ev["live"]["x"], x) or not np.array_equal(ev["live"]["grad"], g):
                     out.violate("subspace_mutated_inputs", "subspace_minimization modified x or grad in place", source="run")
 
-            cfg = dict(jac="callable", maxcor=spec["maxcor"], maxiter=spec["maxiter"], ftol=0.0, gtol=1e-10, maxfun=3000, eps_SY=spec.get("eps_SY", 2.2e-16))
+            cfg = dict(jac="callable", maxcor=spec["maxcor"], maxiter=spec["maxiter"], ftol=0.0, gtol=1e-10, maxfun=3000, eps_SY=spec.get("eps_SY", 2.2e-16),
+                       maxls=int(spec.get("maxls", 20)))
             hooks = {}
             if spec.get("grad_dtype"):
                 cfg["grad_dtype"] = spec["grad_dtype"]  # the user's gradient code works in single precision
@@ -373,7 +385,11 @@ def run(spec):
                 out.count("runs_with_optimisation_nested_in_the_callback")
 
                 def on_cb_nested(i, xk, state):
-                    probes.run_min(Q, dict(jac="callable", maxcor=3, maxiter=3, maxfun=200))
+                    nest["on"] = True
+                    try:
+                        probes.run_min(Q, dict(jac="callable", maxcor=3, maxiter=3, maxfun=200))
+                    finally:
+                        nest["on"] = False
                     return False
 
                 hooks["on_cb"] = on_cb_nested
